@@ -7,6 +7,10 @@
 2. spec -> code: each printed case is built as a pycoin Tx (BTC or GRS), check(), is_coinbase(),
    bad_solution_count(), check() are called, the verdict compared with the one the property
    demands ("any" where it is silent) and the object compared field by field after every call.
+2b. history: MC_TxCheckHistory enumerates every sequence of <= 3 (thorough 4) actions - check(), is_coinbase(),
+   bad_solution_count() and edits of public fields (scripts across the 1,000,000-byte limit, values across the cap,
+   outpoints to duplicate / null, witness, append / remove) - on ONE object; each is run on one pycoin object, and at
+   every check() also on a fresh object built from the current fields: the verdict is a function of the current fields.
 3. code -> spec: seeded random transactions around the same rules (more inputs / outputs,
    random call sequences) are driven through pycoin, logged and validated by TLC against
    Trace_TxCheck.
@@ -66,6 +70,48 @@ def _replay(ctx, cfg, workers):
     if not first:
         raise MachineryError("no ordinary accepted case in the replay")
     return first[0]
+
+
+def _history(ctx, cfg, workers):
+    """the HISTORY dimension: every sequence of <= Depth calls / edits on one long-lived object"""
+    rp = D.StreamReplayer("check_hist_record", (None,), NPROC, chunk=128)
+    flips = {}
+    pick = []
+
+    def on(rec):
+        if rec.get("k") != "hist":
+            return
+        kinds = tuple(a[0] for a in rec["acts"])
+        v = [o["facts"]["verdict"] for a, o in zip(rec["acts"], rec["outs"]) if a[0] == "check"]
+        for a, b in zip(v, v[1:]):
+            flips[(a, b)] = flips.get((a, b), 0) + 1
+        if not pick and v[:1] == ["accept"] and v[-1:] == ["reject"] and len(v) >= 2:
+            pick.append(rec)
+        if rp.records % 1499 == 0:
+            ctx.sample({"history": {"coin": rec["coin"], "acts": [a[0] for a in rec["acts"]], "verdicts": v}})
+        ctx.case(("hist", rec["coin"], kinds, tuple(v)), 0)
+        ctx.action("history." + kinds[-1], 1)
+        rp.feed(rec)
+    ctx.tlc("MC_TxCheckHistory", cfg, workers=workers, on_record=on, keep_records=False, timeout=3000)
+    fails = rp.finish()
+    ctx.log("%s: %d histories from TLC, %d executed on pycoin (long-lived object + fresh object at every check), %d disagreements; "
+            "verdict changes between consecutive checks: %s" % (cfg, rp.records, rp.executed, len(fails), flips))
+    if not (flips.get(("accept", "reject")) and flips.get(("reject", "accept"))) or not pick:
+        raise MachineryError("vacuous history replay: no edit flips the verdict (%s)" % flips)
+    ctx.replayed += rp.records
+    ctx.case(None, rp.executed)
+    ctx.action("replay." + cfg, rp.records)
+    ctx.extra["history_verdict_changes"] = {"%s->%s" % k: n for k, n in sorted(flips.items())}
+    for key, what, detail in fails:
+        ctx.fail(key, what, detail)
+    # binding self-test: present the verdict of the last check as the one BEFORE the edit (a stale verdict)
+    good = pick[0]
+    bad = copy.deepcopy(good)
+    last = max(i for i, a in enumerate(bad["acts"]) if a[0] == "check")
+    bad["outs"][last]["facts"]["verdict"] = "accept"
+    f0 = {x[0] for x in D.check_hist_record(good)}
+    f1 = {x[0] for x in D.check_hist_record(bad)}
+    _selftest(ctx, "history_replay_rejects_stale_verdict", f0 != f1 and any("|check|" in k for k in f0 ^ f1))
 
 
 # ---------------------------------------------------------------- traces
@@ -130,7 +176,56 @@ def _mag(n):
     return out
 
 
-def record_traces(seed, count):
+def _rand_edit(rnd, Tx, tx, sym):
+    """one random edit of the live object's public fields; returns a label (or None if nothing applicable)"""
+    M = MAXM[sym]
+    kind = rnd.choice(["value", "value", "script", "script", "bigscript", "outpoint", "append_in", "remove_in",
+                       "append_out", "remove_out", "witness"])
+    if kind == "value" and tx.txs_out:
+        j = rnd.randrange(len(tx.txs_out))
+        tx.txs_out[j].coin_value = _rand_value(rnd, M)
+    elif kind == "script" and tx.txs_in:
+        tx.txs_in[rnd.randrange(len(tx.txs_in))].script = bytes([0x51]) * rnd.choice([0, 1, 2, 3, 99, 100, 101, 102])
+    elif kind == "bigscript" and (tx.txs_in or tx.txs_out):
+        # move the witness-stripped size to just below / onto / just above the limit (sizes are pycoin's own here;
+        # the spec recomputes them from the logged fields)
+        if tx.txs_in and rnd.random() < 0.7:
+            tgt = tx.txs_in[0]
+        else:
+            tgt = (tx.txs_out or tx.txs_in)[0]
+        tgt.script = b""
+        try:
+            base = len(tx.as_bin(include_witness_data=False))
+        except Exception:
+            return None
+        n = 1000000 + rnd.choice([-1, 0, 1, 1, 2000]) - base - 4
+        if n < 70000:
+            return None
+        tgt.script = bytes([0x51]) * n
+    elif kind == "outpoint" and tx.txs_in:
+        i = rnd.randrange(len(tx.txs_in))
+        if len(tx.txs_in) > 1 and rnd.random() < 0.5:
+            o = tx.txs_in[(i + 1) % len(tx.txs_in)]
+            tx.txs_in[i].previous_hash, tx.txs_in[i].previous_index = o.previous_hash, o.previous_index
+        else:
+            tx.txs_in[i].previous_hash = rnd.choice([b"\0" * 32, bytes([7]) * 32, bytes([5]) * 32])
+            tx.txs_in[i].previous_index = rnd.choice([0, 3, 0xFFFFFFFF])
+    elif kind == "append_in":
+        tx.txs_in.append(Tx.TxIn(bytes([rnd.randrange(1, 200)]) * 32, rnd.randrange(4), bytes([0x51]) * rnd.choice([0, 2, 50])))
+    elif kind == "remove_in" and tx.txs_in:
+        tx.txs_in.pop(rnd.randrange(len(tx.txs_in)))
+    elif kind == "append_out":
+        tx.txs_out.append(Tx.TxOut(_rand_value(rnd, M), b""))
+    elif kind == "remove_out" and tx.txs_out:
+        tx.txs_out.pop(rnd.randrange(len(tx.txs_out)))
+    elif kind == "witness" and tx.txs_in:
+        tx.set_witness(rnd.randrange(len(tx.txs_in)), [bytes([2]) * rnd.choice([0, 1, 72, 1000000])])
+    else:
+        return None
+    return kind
+
+
+def record_traces(seed, count, edits=False):
     rnd = random.Random(seed)
     traces = []
     for t in range(count):
@@ -139,14 +234,26 @@ def record_traces(seed, count):
         p = _rand_check_tx(rnd, sym)
         tx = D.build_tx(Tx, p)
         ev = []
-        for call in [rnd.choice(["check", "check", "is_coinbase", "bad_solution_count"]) for _ in range(rnd.randrange(2, 6))]:
+        n = rnd.randrange(2, 6) if not edits else rnd.randrange(4, 9)
+        plan = [rnd.choice(["check", "check", "is_coinbase", "bad_solution_count"] + (["edit"] * 4 if edits else [])) for _ in range(n)]
+        if edits:
+            plan.append("check")
+        for call in plan:
+            info = None
             try:
-                if call == "check":
+                if call == "edit":
+                    was = D.project_tx(tx)
+                    info = _rand_edit(rnd, Tx, tx, sym)
+                    if D.project_tx(tx) == was:
+                        continue           # nothing changed: not an event
+                    info = info or "partial"
+                    res = "edited"
+                elif call == "check":
                     res, info = D.observe_check(tx)
                 elif call == "is_coinbase":
-                    res, info = ("yes" if tx.is_coinbase() else "no"), None
+                    res = "yes" if tx.is_coinbase() else "no"
                 else:
-                    res, info = ("zero" if tx.bad_solution_count() == 0 else "some"), None
+                    res = "zero" if tx.bad_solution_count() == 0 else "some"
             except Exception as e:
                 res, info = "raised", type(e).__name__ + ":" + str(e)[:80]      # no step of the spec has this result
             after = D.project_tx(tx)
@@ -198,6 +305,8 @@ def _coarse(cls):
 def _traces(ctx):
     n = 600 if ctx.quick else 6000
     trs = record_traces(ctx.seed * 7919 + 20, n)
+    # the same object edited between the calls (the HISTORY dimension)
+    trs += record_traces(ctx.seed * 7919 + 21, n // 2, edits=True)
     tj = [_trace_json(t) for t in trs]
     rejected = set()
     for a in range(0, len(tj), 1500):
@@ -210,8 +319,10 @@ def _traces(ctx):
             t = trs[a + i]
             e = t["ev"][matched]
             rec = {"maxmoney": D.limbs(MAXM[t["sym"]], 4), "total": 0, "stripped": 0}
-            cls = D.chk_class(rec, t["tx"])
-            ctx.fail("C20|trace|%s|%s|result=%s" % (e["call"], _coarse(cls), e["result"]),
+            cur = t["ev"][matched - 1]["after"] if matched else t["tx"]       # the fields the failing call saw
+            cls = D.chk_class(rec, cur)
+            hist = "|after=" + ",".join(x["call"] for x in t["ev"][:matched])[-40:] if any(x["call"] == "edit" for x in t["ev"][:matched]) else ""
+            ctx.fail("C20|trace|%s|%s%s|result=%s" % (e["call"], _coarse(cls), hist, e["result"]),
                      "recorded %s run is not a behaviour of TxCheck: call #%d %s() -> %s (%s) on %s" % (
                          t["sym"], matched + 1, e["call"], e["result"], e["info"], cls),
                      {"sym": t["sym"], "tx": D._short(t["tx"]), "events": [{k: D._short(v) for k, v in x.items()} for x in t["ev"]], "failed_at": matched})
@@ -263,6 +374,8 @@ def run(ctx):
         f0 = {x[0] for x in D.check_chk_record(first) if x[0] != "OBS"}
         f1 = {x[0] for x in D.check_chk_record(bad) if x[0] != "OBS"}
         _selftest(ctx, "replay_rejects_corrupted_verdict", f0 != f1 and any("|check|" in k for k in f0 ^ f1))
+    if not only or "history" in only:
+        _history(ctx, "MC_TxCheckHistory_q" if q else "MC_TxCheckHistory_t", 4 if q else 8)
     if not only or "traces" in only:
         _traces(ctx)
     ctx.exhaustive = True
